@@ -109,7 +109,10 @@ inline void backend_body(Scenario const& sc)
       if (!r.is_flush && !r.is_destroy) ++k;
     return k;
   };
-  w.worker->poll(std::chrono::microseconds{50});
+  if (sc.c("exitdrain", 0))
+    w.worker->_backend_worker->_exit(); // the shutdown drain (Backend::stop(), ~ManualBackendWorker) instead of poll()
+  else
+    w.worker->poll(std::chrono::microseconds{50});
   bool const quill_says_empty = w.worker->_backend_worker->_check_frontend_queues_and_cached_transit_events_empty();
   size_t const writes_after_quill_drain = writes();
   int idle = 0, n = 0;
